@@ -246,6 +246,86 @@ class TupleInstance(Instance):
         return f'{self._cls.node.name}{self._tuple()!r}'
 
 
+class _GenClose(BaseException):
+    """Raised inside the body of an abandoned lazy generator so that it unwinds."""
+
+
+class LazyGen:
+    """A generator function of the repository run *lazily*: the body executes in a thread of its own that is resumed for one
+    item at a time, so that whatever the consumer does between two items happens between the two `yield`s, as in the
+    interpreter proper (a buffer that is yielded and then modified is seen in the state it had when it was yielded).  Only one
+    of the two threads runs at any moment."""
+
+    _stack_set = False
+
+    def __init__(self, body):
+        import threading
+        self._body = body            # body(emit)
+        self._thread = None
+        self._done = False
+        self._closing = False
+        self._req = threading.Semaphore(0)
+        self._resp = threading.Semaphore(0)
+        self._item = None
+        self._exc = None
+
+    def __iter__(self):
+        return self
+
+    def _emit(self, value):
+        self._item = value
+        self._resp.release()
+        self._req.acquire()
+        if self._closing:
+            raise _GenClose()
+
+    def _run(self):
+        self._req.acquire()
+        try:
+            if not self._closing:
+                self._body(self._emit)
+        except _GenClose:
+            pass
+        except BaseException as e:      # noqa: BLE001 -- handed to the consumer
+            self._exc = e
+        self._done = True
+        self._resp.release()
+
+    def __next__(self):
+        import threading
+        if self._done:
+            raise StopIteration
+        if self._thread is None:
+            if not LazyGen._stack_set:
+                try:
+                    threading.stack_size(256 * 1024 * 1024)
+                except (ValueError, RuntimeError):
+                    pass
+                LazyGen._stack_set = True
+            self._thread = threading.Thread(target=self._run, daemon=True)
+            self._thread.start()
+        self._req.release()
+        self._resp.acquire()
+        if self._exc is not None:
+            e, self._exc = self._exc, None
+            raise e
+        if self._done:
+            raise StopIteration
+        return self._item
+
+    def close(self):
+        if self._thread is not None and not self._done and not self._closing:
+            self._closing = True
+            self._req.release()
+        self._done = True
+
+    def __del__(self):
+        try:
+            self.close()
+        except Exception:       # noqa: BLE001
+            pass
+
+
 class Env:
     def __init__(self, parent=None, vars=None):
         self.parent = parent
@@ -567,6 +647,7 @@ class Interp:
         self.repo = repo
         self.overrides = dict(overrides or {})
         self.eager_generators: set = set()
+        self.lazy_generators = True     # generator functions run item by item (LazyGen); False: run to completion first
         self.method_oracles: dict = {}
         self.allow_while = False
         self.real_super = False
@@ -713,7 +794,7 @@ class Interp:
             self._bind(fn.mod, node.args, args, kwargs, env, fn.closure)
             if isinstance(node, ast.Lambda):
                 return self.eval(fn.mod, node.body, env)
-            if f'{fn.mod.name}.{fn.__name__}' in self.eager_generators or self._is_generator(node):
+            if f'{fn.mod.name}.{fn.__name__}' in self.eager_generators or (self._is_generator(node) and not self.lazy_generators):
                 # vetted generator run to completion: the caller receives every yielded object
                 # afterwards, so a buffer shared between yields shows its final contents only
                 env.vars['__yielded__'] = out = []
@@ -722,6 +803,15 @@ class Interp:
                 except _Return:
                     pass
                 return iter(out)
+            if self._is_generator(node):
+                # lazily, item by item (see LazyGen)
+                def body(emit, env=env, fn=fn, node=node):
+                    env.vars['__emit__'] = emit
+                    try:
+                        self.exec_block(fn.mod, node.body, env)
+                    except _Return:
+                        pass
+                return LazyGen(body)
             try:
                 self.exec_block(fn.mod, node.body, env)
             except _Return as r:
@@ -1047,12 +1137,21 @@ class Interp:
                     d[self.eval(mod, k, env)] = self.eval(mod, v, env)
             return d
         if isinstance(e, ast.YieldFrom):
+            emit, lazy = env.lookup('__emit__')
+            if lazy:
+                for v_ in self.eval(mod, e.value, env):
+                    emit(v_)
+                return None
             out, found = env.lookup('__yielded__')
             if not found:
                 self.unsupported(mod, e, 'yield from outside a vetted generator')
             out.extend(list(self.eval(mod, e.value, env)))
             return None
         if isinstance(e, ast.Yield):
+            emit, lazy = env.lookup('__emit__')
+            if lazy:
+                emit(self.eval(mod, e.value, env) if e.value is not None else None)
+                return None
             out, found = env.lookup('__yielded__')
             if not found:
                 self.unsupported(mod, e, 'yield outside a vetted generator')
